@@ -11,6 +11,7 @@ from dalimc.env import gear102 as G, device103 as D, memimage as MI
 from .c11 import lib_values
 
 ID = "C10"
+OPTIMISED_STRIDE = {"quick": 10, "thorough": 20}      # every k-th shard once more in an interpreter started with -O
 LEVEL = "fault_enumeration"
 ENGINE = "E2"
 TECHNIQUE = "exhaustive fault enumeration: the real memory-write generators against a spec model of IEC 62386-102 9.10, one fault of each kind at every answering step (deviation bound 1/2) and every non-conforming unit variant"
